@@ -153,6 +153,8 @@ def run_execution(sess, xid, kind, params, gname, calls, plan, thread_log, fine=
     model_before = sess.enc_model(shared)
     errors = []
 
+    passed = [{k: (list(v) if isinstance(v, list) else v) for k, v in c["kw"].items()} for c in calls]   # the library's own copies
+
     def body(th):
         c = calls[th]
         _tls.sched, _tls.th = sch, th
@@ -165,7 +167,7 @@ def run_execution(sess, xid, kind, params, gname, calls, plan, thread_log, fine=
             m = shared.m
             try:
                 if c["op"] == "rate":
-                    out = ("ok", m.rate(teams_all[th], **c["kw"]), "")
+                    out = ("ok", m.rate(teams_all[th], **passed[th]), "")
                 else:
                     fn = {"win": "predict_win", "draw": "predict_draw", "rank": "predict_rank"}[c["op"]]
                     out = ("ok", getattr(m, fn)(teams_all[th]), "")
@@ -199,7 +201,7 @@ def run_execution(sess, xid, kind, params, gname, calls, plan, thread_log, fine=
             ev = {"op": "rate", "model0": dict(shared.constructed, id=shared.id), "model": model_before, "teams": pre[th],
                   "ranks": sess.enc(kw.get("ranks")), "scores": sess.enc(kw.get("scores")), "tau": sess.enc(kw.get("tau")),
                   "limit": sess.enc(kw.get("limit_sigma")),
-                  "ranks_after": sess.enc(kw.get("ranks")), "scores_after": sess.enc(kw.get("scores"))}
+                  "ranks_after": sess.enc(passed[th].get("ranks")), "scores_after": sess.enc(passed[th].get("scores"))}
         else:
             ev = {"op": c["op"], "model0": dict(shared.constructed, id=shared.id), "model": model_before, "teams": pre[th]}
         ev["out"] = {"kind": kind_, "exc": exc, "value": sess.enc(val)}
